@@ -40,11 +40,15 @@ def cases(tier, seed):
 
 def make(rng, cls, tier, sub):
     k = int(rng.randint(1, 10))
+    if sub % 12 == 5:
+        k = int(rng.randint(17, 27))          # many clusters: more than any short list of "closest clusters" holds
     d = int(rng.randint(1, 5))
     big = 200 if tier == "thorough" else 90
     # cover every residue: n = q*k + r with r cycling
     r = sub % max(k, 1)
     q = int(rng.randint(1, max(2, (big if rng.rand() < 0.1 else 40) // max(k, 1))))
+    if k >= 17:
+        q = int(rng.randint(3, 7))
     n = max(k, q * k + r)
     if cls == "blobs" or cls == "frame":
         c = rng.randn(k, d) * 5
